@@ -143,7 +143,12 @@ def mapping_rules(chk):
             chk.bad(r, name, "a missing section is handled without consulting the plugin's required flag", node=fi.node, stmt="required-not-consulted")
             ok = False
             continue
-        required = req[0][2]
+        rterm = [x for x in subterms(req[0][1]) if x[0] == "attr" and x[2] == "required"][0]
+        required = it.truth(rterm, o.path)
+        if required is None:
+            chk.undecided(r, name, "the required flag is not decided on a path", node=fi.node)
+            ok = False
+            continue
         saw_req[required] += 1
         if required and not (o.kind == "raise" and is_exc(o.value) and o.value[1] == CONFIG_ERROR):
             chk.bad(r, name, "a required plugin whose section is missing does not make loading fail with a ConfigurationError (path ends: %s %s)" % (o.kind, show(o.value) if o.value else ""), node=fi.node, stmt="required-missing-not-rejected")
@@ -233,49 +238,85 @@ def loader_rules(chk):
         chk.undecided("O14.3", name, "no toposort call on a named dependency mapping found", node=fi.node)
         return
     parents = util.parents_map(fi.node)
-    # names bound to constraint sets by iteration: `for before in plugin.before`
+    # ---- aliases: which local names denote constraint names / a plugin's own section
     constraint_vars = {}  # local name -> 'before' | 'after'
-    plugin_vars = set()
+    section_vars = set()  # local names that hold a plugin's own section (keys of the plugin mapping)
+    plugin_maps = set()  # local names of mappings keyed by plugin.section
+    for n in ast.walk(fi.node):
+        if isinstance(n, (ast.Assign, ast.AnnAssign)) and isinstance(getattr(n, "value", None), ast.DictComp):
+            tg = n.targets[0] if isinstance(n, ast.Assign) else n.target
+            if isinstance(tg, ast.Name) and isinstance(n.value.key, ast.Attribute) and n.value.key.attr == "section":
+                plugin_maps.add(tg.id)
     for n in ast.walk(fi.node):
         gens = []
-        if isinstance(n, (ast.For,)):
+        if isinstance(n, ast.For):
             gens.append((n.target, n.iter))
         elif isinstance(n, (ast.ListComp, ast.SetComp, ast.DictComp, ast.GeneratorExp)):
             gens.extend((g.target, g.iter) for g in n.generators)
-        for tgt, it in gens:
-            if isinstance(tgt, ast.Name) and isinstance(it, ast.Attribute) and it.attr in ("before", "after"):
-                constraint_vars[tgt.id] = it.attr
-            elif isinstance(tgt, ast.Name):
-                plugin_vars.add(tgt.id)
+        for tgt, it_ in gens:
+            if isinstance(tgt, ast.Name) and isinstance(it_, ast.Attribute) and it_.attr in ("before", "after"):
+                constraint_vars[tgt.id] = it_.attr
+            if isinstance(it_, ast.Call) and isinstance(it_.func, ast.Attribute) and it_.func.attr == "items" and util.dotted(it_.func.value) in plugin_maps and isinstance(tgt, ast.Tuple) and isinstance(tgt.elts[0], ast.Name):
+                section_vars.add(tgt.elts[0].id)
+            if isinstance(it_, ast.Name) and it_.id in plugin_maps and isinstance(tgt, ast.Name):
+                section_vars.add(tgt.id)
 
     def classify_key(k):
         """'constraint:before' | 'constraint:after' | 'section' | None"""
         if isinstance(k, ast.Name) and k.id in constraint_vars:
             return "constraint:" + constraint_vars[k.id]
+        if isinstance(k, ast.Name) and k.id in section_vars:
+            return "section"
         if isinstance(k, ast.Attribute) and k.attr == "section":
             return "section"
+        return None
+
+    def classify_value(v):
+        """what a value stored into / added to the dependency map stands for"""
+        k = classify_key(v)
+        if k:
+            return k
+        txt = util.unparse(v)
+        if txt.endswith(".after") or txt.endswith(".after)"):
+            return "set:after"
+        if txt.endswith(".before") or txt.endswith(".before)"):
+            return "set:before"
+        if txt in ("set()", "[]", "frozenset()"):
+            return "empty"
         return None
 
     # ---- O14.3 orientation ------------------------------------------------------------
     r = "O14.3"
     ok = True
+    own_after = own_before = False
+    handles_before = False
+    n_updates = 0
     init = None
     for n in ast.walk(fi.node):
         if isinstance(n, (ast.Assign, ast.AnnAssign)):
             tg = n.targets[0] if isinstance(n, ast.Assign) else n.target
             if isinstance(tg, ast.Name) and tg.id == dep and n.value is not None:
                 init = n.value
-    own_after = own_before = False
-    if isinstance(init, ast.DictComp) and classify_key(init.key) == "section":
-        txt = util.unparse(init.value)
-        own_after = ".after" in txt
-        own_before = ".before" in txt
-    elif init is not None and not isinstance(init, ast.DictComp):
+    if isinstance(init, ast.DictComp):
+        if classify_key(init.key) == "section":
+            vk = classify_value(init.value)
+            own_after |= vk == "set:after"
+            own_before |= vk == "set:before"
+        else:
+            chk.undecided(r, name, "the dependency mapping is not keyed by the plugins' sections", node=init)
+            ok = False
+    elif init is not None and not (isinstance(init, ast.Dict) and not init.keys) and util.unparse(init) not in ("dict()", "defaultdict(set)", "collections.defaultdict(set)"):
         chk.undecided(r, name, "initialisation of the dependency mapping not recognised", node=init)
         ok = False
-    adds = []  # (key kind, value kind, node)
+    defaultdict = init is not None and "defaultdict" in util.unparse(init)
+    adds = []
     for n in ast.walk(fi.node):
-        if isinstance(n, ast.Call) and isinstance(n.func, ast.Attribute) and n.func.attr in ("add", "update", "append"):
+        # D[key] = value
+        if isinstance(n, ast.Assign):
+            for t in n.targets:
+                if isinstance(t, ast.Subscript) and isinstance(t.value, ast.Name) and t.value.id == dep:
+                    adds.append((classify_key(t.slice), classify_value(n.value), n, "store"))
+        if isinstance(n, ast.Call) and isinstance(n.func, ast.Attribute) and n.func.attr in ("add", "update", "append", "extend"):
             recv = n.func.value
             key = None
             if isinstance(recv, ast.Subscript) and isinstance(recv.value, ast.Name) and recv.value.id == dep:
@@ -290,15 +331,19 @@ def loader_rules(chk):
             ):
                 key = recv.args[0]
             if key is not None and n.args:
-                adds.append((classify_key(key), classify_key(n.args[0]), n))
+                adds.append((classify_key(key), classify_value(n.args[0]), n, n.func.attr))
     chk.count(len(adds) + 1)
-    handles_before = False
-    for kk, vk, n in adds:
+    for kk, vk, n, how in adds:
+        n_updates += 1
         if kk == "constraint:before" and vk == "section":
             handles_before = True  # the plugin is added to the entry of each of its `before` names
-        elif kk == "section" and vk == "constraint:after":
+        elif kk == "section" and vk in ("constraint:after", "set:after"):
             own_after = True
-        elif kk == "section" and vk == "constraint:before":
+        elif kk and kk.startswith("constraint") and vk == "empty":
+            pass  # making the lookup of an absent name total
+        elif kk == "section" and vk == "empty":
+            pass
+        elif kk == "section" and vk in ("constraint:before", "set:before"):
             chk.bad(r, name, "a plugin's `before` names are recorded as things that must run before it: the constraint is inverted", node=n)
             ok = False
         elif kk == "constraint:after" and vk == "section":
@@ -318,10 +363,16 @@ def loader_rules(chk):
         ok = False
     # the sorted names are filtered to installed plugins, and the result follows the sorted order
     filt = False
+    topo_names = set()
+    for n in ast.walk(fi.node):
+        if isinstance(n, ast.Assign) and any(x is topo for x in ast.walk(n.value)):
+            topo_names.update(t.id for t in n.targets if isinstance(t, ast.Name))
+    def from_topo(expr):
+        return any(x is topo for x in ast.walk(expr)) or any(isinstance(x, ast.Name) and x.id in topo_names for x in ast.walk(expr))
     for n in ast.walk(fi.node):
         if isinstance(n, (ast.GeneratorExp, ast.ListComp)):
             for g in n.generators:
-                if any(x is topo for x in ast.walk(g.iter)):
+                if from_topo(g.iter):
                     if any(isinstance(c, ast.Compare) and isinstance(c.ops[0], ast.In) for c in g.ifs):
                         filt = True
     if not filt:
@@ -331,7 +382,7 @@ def loader_rules(chk):
             n
             for n in ast.walk(fi.node)
             if isinstance(n, (ast.GeneratorExp, ast.ListComp))
-            and any(x is topo for g in n.generators for x in ast.walk(g.iter))
+            and any(from_topo(g.iter) for g in n.generators)
             and isinstance(n.elt, ast.Subscript)
         ]
         if unguarded:
@@ -357,7 +408,22 @@ def loader_rules(chk):
                 continue
             n_sites += 1
             chk.count()
-            guarded = False
+            guarded = defaultdict
+            # an earlier sibling statement makes the key present:  `if k not in D: D[k] = ...`  /  `D.setdefault(k, ...)`
+            st = n
+            while parents.get(id(st)) is not None and not isinstance(st, ast.stmt):
+                st = parents[id(st)]
+            blk = parents.get(id(st))
+            for fld in ("body", "orelse", "finalbody"):
+                seq = getattr(blk, fld, None)
+                if isinstance(seq, list) and st in seq:
+                    for prev in seq[: seq.index(st)]:
+                        ptxt = util.unparse(prev).replace(" ", "")
+                        key = util.unparse(n.slice)
+                        if ptxt.startswith("if%snotin%s:" % (key, dep)) and ("%s[%s]=" % (dep, key)) in ptxt:
+                            guarded = True
+                        if ptxt.startswith("%s.setdefault(%s," % (dep, key)):
+                            guarded = True
             p = parents.get(id(n))
             while p is not None and p is not fi.node:
                 if isinstance(p, ast.Try) and any(
